@@ -196,12 +196,13 @@ def styleName : Style → String
 
 /-- The live tables: `FG/BG_NUMBER_TO_COLOR` cover exactly the codes 30+i / 40+i, `NUMBER_TO_STYLE` is the
     model's `numberToStyle`, the reset constants are the model's, and `FG_COLORS`/`BG_COLORS`/`STYLES`
-    (which `parse_args` uses to turn the names back into numbers) are the inverse tables. -/
+    (which `parse_args` uses to turn the names back into numbers) map every name the parser produces back to its
+    number (the name tables may hold further names - aliases - that the parser never produces). -/
 theorem C05_tables :
     Generated.fgNumberToColor.map Prod.fst = (List.finRange 8).map fgCode ∧
     Generated.bgNumberToColor.map Prod.fst = (List.finRange 8).map bgCode ∧
-    Generated.fgNumberToColor.map (fun p => (p.2, p.1)) = Generated.fgColors ∧
-    Generated.bgNumberToColor.map (fun p => (p.2, p.1)) = Generated.bgColors ∧
+    (∀ p ∈ Generated.fgNumberToColor, Generated.fgColors.lookup p.2 = some p.1) ∧
+    (∀ p ∈ Generated.bgNumberToColor, Generated.bgColors.lookup p.2 = some p.1) ∧
     Generated.numberToStyle.map (fun p => (numberToStyle p.1).map styleName) =
       Generated.numberToStyle.map (fun p => some p.2) ∧
     (List.range 110).filter (fun n => (numberToStyle n).isSome) = Generated.numberToStyle.map Prod.fst ∧
